@@ -31,6 +31,7 @@ type Solver struct {
 
 	Queries      int
 	Fallbacks    int
+	Restarts     int
 	firstTimeout int
 	Sat          int
 	Unsat        int
@@ -246,9 +247,17 @@ func (s *Solver) Check(extra *Term, wants []*Term) (string, map[*Term]uint64) {
 	return res, model
 }
 
+// restart replaces a solver process that has died or lost synchronisation. The new process must see
+// the whole base-level context of the current run again (definitions and path condition); otherwise
+// later queries would be answered under-constrained.
 func (s *Solver) restart() {
 	s.Close()
+	saved := s.emitted
 	s.start()
+	s.emitted = saved
+	ctx := strings.ReplaceAll(s.base.String(), "(reset)\n", "")
+	io.WriteString(s.in, ctx)
+	s.Restarts++
 }
 
 func (s *Solver) readResult() string {
